@@ -260,3 +260,16 @@ Section LikRename.
     unfold srate, sum, prod. simpl. rewrite filter_true by (intros; reflexivity). rewrite !big_map.
     f_equal; [f_equal|]; apply big_ext; intros m _; auto. Qed.
 End LikRename.
+
+(* non-vacuity of the combine statements: two valid workspaces with nothing in common do combine, and every channel has its observation *)
+Definition other_ws : workspace :=
+  {| w_channels := [{| c_name := "d"; c_samples := [{| s_name := "s"; s_data := [1%Qc];
+        s_mods := [{| m_name := "x"; m_type := "normsys"; m_data := MNormsys 1%Qc 1%Qc |}] |}] |}];
+     w_observations := [{| o_name := "d"; o_data := [1%Qc] |}];
+     w_measurements := [{| me_name := "m2"; me_poi := "x"; me_params := [] |}];
+     w_version := "1.0.0" |}.
+Example combine_none_applies :
+  combine two_type_ws other_ws "none" false true = Ok (ws_app two_type_ws other_ws) /\
+  obs_complete two_type_ws /\ obs_complete other_ws /\
+  constrained_names (ws_app two_type_ws other_ws) = ["x"] /\ shared_constrained two_type_ws other_ws = ["x"].
+Proof. split; [reflexivity|]. split; [|split; [|split; reflexivity]]; intros c [<-|[]]; simpl; auto. Qed.
